@@ -7,6 +7,14 @@ WB_INVS = ["TerminatedInTime", "ErrorIndication", "NoDisturbance", "RoutedByAddr
            "NoLostTermination"]
 WB_PROPS = ["Recovers"]
 from ..families import errcnt
+from ..families import axilto
+AXL_INVS = ["OffersTerminatedInTime", "NoDisturbance", "ErrorIndication", "SlaveResponsePassed",
+            "AcceptedRequestsAnsweredInTime", "ResponseHold"]
+AXL_CM = {k: k for k in AXL_INVS}
+AXL_CM["Recovers"] = "BoundedService"
+AXL = GFamily("axilto/AxiLiteTimeoutGraph", "axilto/AxiLiteTimeoutTrace", "harness.families.axilto:make", fmt="hash",
+              hint=axilto.Hint(), clause_map=AXL_CM,
+              describe=lambda s: "axi_lite.AXILiteInterconnectShared(1x1, timeout=%d, %s)" % (s["t"], "write" if s["dir"] == "w" else "read"))
 ERRCNT = GFamily("errcnt/ErrCounterGraph", None, "harness.families.errcnt:make", fmt="hash",
                  describe=lambda s: "SoCController.bus_errors(%s)" % ("seeded 4 below saturation" if s["seeded"] else "from reset"))
 
@@ -18,6 +26,10 @@ def run(prop, report, tier, seed):
     stats = run_batches(wbicfam.FAMILY, report, [cfgs[i:i + 5] for i in range(0, len(cfgs), 5)], WB_INVS, WB_PROPS,
                         spec_budget=300000)
     report.add(duts_explored=len(stats), clauses=WB_INVS + WB_PROPS, per_dut=stats)
+    # AXI-Lite: shared interconnect with AXILiteTimeout and a faulty slave / unmapped address
+    acfgs = axilto.configs(tier)
+    astats = run_batches(AXL, report, [acfgs], AXL_INVS, ["Recovers"], spec_budget=300000)
+    report.add(axilite_duts_explored=len(astats), axilite_clauses=AXL_INVS + ["Recovers"], per_dut=astats)
     # SoC bus-error counter: counts once per pulse, saturates (seeded near 2^32-1)
     from ..graphloop import GraphLoop
     from ..report import MachineryError
